@@ -69,6 +69,9 @@ Read == IsEv("read") /\
        /\ Ok(With(fs, E.o, [H EXCEPT !.pos = @ + got, !.eof = (n > 0 /\ av < n) \/ H.eof]), disk, opens, closes)
 Seek == IsEv("seek") /\ IF ~H.open THEN Refused
         ELSE Ok(With(fs, E.o, [H EXCEPT !.pos = SeekTarget(H, C, E.a, E.b), !.eof = FALSE]), disk, opens, closes)
+(* positions beyond 2^31 and 2^32 (a seek far past the end, then back): stell reports exactly the position asked for, in full *)
+BigSeek == IsEv("bigseek") /\ IF ~H.open THEN Refused
+           ELSE E.hi = E.a /\ E.lo = E.b /\ E.same = 1 /\ Ok(With(fs, E.o, [H EXCEPT !.eof = FALSE]), disk, opens, closes)
 Tell == IsEv("tell") /\ IF ~H.open THEN Refused ELSE E.r = H.pos /\ Ok(fs, disk, opens, closes)
 Eof == IsEv("eof") /\ IF ~H.open THEN Refused ELSE E.r = (IF H.eof THEN 1 ELSE 0) /\ Ok(fs, disk, opens, closes)
 Flush == IsEv("flush") /\ IF ~H.open THEN Refused ELSE Ok(fs, disk, opens, closes)
@@ -95,7 +98,7 @@ ScanEv == IsEv("scan") /\ IF ~H.open THEN Refused
              /\ LET np == IF r[2] <= Len(C) /\ C[r[2]] = 32 THEN r[2] ELSE r[2] - 1 IN      \* the blank after the digits is consumed
                 Ok(With(fs, E.o, [H EXCEPT !.pos = np, !.eof = (np = Len(C)) \/ H.eof]), disk, opens, closes)   \* looking for more white space hits the end
 
-Next == Reset \/ End \/ New \/ Open \/ Write \/ Read \/ Seek \/ Tell \/ Eof \/ Flush \/ Close \/ WithBegin \/ Del \/ Destruct \/ Construct \/ FullClose \/ ProcClose2 \/ PrintEv \/ ScanEv
+Next == Reset \/ End \/ New \/ Open \/ Write \/ Read \/ Seek \/ BigSeek \/ Tell \/ Eof \/ Flush \/ Close \/ WithBegin \/ Del \/ Destruct \/ Construct \/ FullClose \/ ProcClose2 \/ PrintEv \/ ScanEv
 Spec == Init /\ [][Next]_vars
 Accepted == LET d == TLCGet("stats").diameter IN
             /\ PrintT(<<"TRACE_MATCHED", d - 1, Len(T)>>)
